@@ -11,6 +11,7 @@ ENCODES = [
     "spsdk.dat.debug_credential.DebugCredentialCertificateRsa.export", "spsdk.dat.debug_credential.DebugCredentialCertificateRsa.parse",
     "spsdk.dat.debug_credential.DebugCredentialCertificateRsa._get_data_to_sign",
     "spsdk.dat.debug_credential.DebugCredentialCertificate.sign", "spsdk.dat.debug_credential.RotMetaEcc.load_from_config",
+    "spsdk.dat.debug_credential.DebugCredentialCertificate.create_from_yaml_config",
     "spsdk.dat.debug_credential.RotMetaEcc.export", "spsdk.dat.debug_credential.RotMetaEcc.parse",
     "spsdk.dat.debug_credential.RotMetaEcc.calculate_hash", "spsdk.dat.debug_credential.RotMetaFlags.export",
     "spsdk.dat.debug_credential.RotMetaFlags.parse", "spsdk.dat.debug_credential.RotMetaRSA.load_from_config",
@@ -24,13 +25,14 @@ ENCODES = [
 BOUNDS = {
     "quick": "ECC protocol 2.0 (P-256) and 2.1 (P-384): 1..4 stub RoT keys with every used index, stub debug key, all of "
              "uuid (16 bytes), cc_socu, cc_vu, beacon, auth beacon (32-bit), device uuid, challenge (32 bytes), DAC fields "
-             "symbolic; socc of lpc55s3x / mcxn9xx (concrete, database lookup); RSA protocol 1.0 (2048): 1..2 stub RoT keys",
+             "symbolic; histories of two credentials from one configuration with all key files replaced in between; socc of lpc55s3x / mcxn9xx (concrete, database lookup); RSA protocol 1.0 (2048): 1..2 stub RoT keys",
     "thorough": "as quick plus RSA 1.0 with 3..4 keys and RSA 1.1 (4096)",
 }
-OUTSIDE = ("EdgeLock-enclave credentials (AHAB certificate objects inside); real signatures; YAML/key-file plumbing "
-           "(create_from_yaml_config) - key files are replaced by stub keys at extract_public_key")
+OUTSIDE = ("EdgeLock-enclave credentials (AHAB certificate objects inside); real signatures; reading of YAML and key files "
+           "- key files are replaced by stub keys at extract_public_key (a name -> key table that the history cases change "
+           "between two credentials)")
 STUBS = ["get_hash -> UF", "extract_public_key / PublicKey.parse -> stub keys (parse inverse of export)", "signature provider -> UF SIGN"]
-MUST_REACH = ["dc\\..*", "dar\\..*", "dac\\..*"]
+MUST_REACH = ["dc\\..*", "dar\\..*", "dac\\..*", "hist\\..*"]
 OPTS = {"quick": {"case_timeout_s": 500}, "thorough": {"case_timeout_s": 2400}}
 CS = {"2.0": ("secp256r1", 32, 256), "2.1": ("secp384r1", 48, 384)}
 SOCC = {"lpc55s3x": 0x4, "mcxn9xx": 0x7, "lpc55s6x": 0x1}
@@ -253,9 +255,53 @@ def h_rsa(env, c):
     env.prove(len(dsp.calls) == 1 and env.bytes_eq(dsp.calls[0], exp_common + list(challenge)), "dar.signature_covers_credential_beacon_challenge")
 
 
+def h_hist(env, c):
+    """Two credentials made in one process from the same configuration text while the key files change in between
+    (key rotation in place / a second project folder with the same file names): each credential is a function of
+    the keys that were there when it was made."""
+    curve, n, hb = CS[c["ver"]]
+    fam, used, cnt = c["family"], c["used"], c["n"]
+    socc = SOCC[fam]
+    cfg = {"family": fam, "rot_meta": [f"hk{i}" for i in range(cnt)], "rot_id": used, "dck": "hd", "uuid": "a5" * 16,
+           "cc_socu": 0x11, "cc_vu": 0x22, "cc_beacon": 0x33, "rotk": "hrotk"}
+    exports = []
+    for gen in (1, 2):
+        roots = [_ecc_key(env, f"g{gen}r{i}", curve, n) for i in range(cnt)]
+        dck = _ecc_key(env, f"g{gen}d", curve, n)
+        for i, k in enumerate(roots):
+            KEYS[f"hk{i}"] = k
+        KEYS["hd"] = dck
+        sp = _sp(env, roots[used], 2 * n)
+        DC.get_signature_provider = lambda *a, **k: sp
+        dc = DC.DebugCredentialCertificate.create_from_yaml_config(cfg)
+        dc.sign()
+        b = list(dc.export())
+        exports.append((dc, b))
+        tag = "hist.first" if gen == 1 else "hist.second"
+        pubs = [list(k.export()) for k in roots]
+        refs = [H(env, p, hb) for p in pubs]
+        o = 40
+        if cnt > 1:
+            ok = []
+            for i in range(cnt):
+                ok.append(env.bytes_eq(b[o: o + n], refs[i]))
+                o += n
+            env.prove(env.And(*ok), tag + "_credential_table_is_hashes_of_the_keys_present_when_it_was_made")
+        env.prove(env.bytes_eq(b[o: o + 2 * n], pubs[used]), tag + "_credential_names_the_root_present_when_it_was_made")
+        o += 2 * n
+        env.prove(env.bytes_eq(b[o: o + 2 * n], list(dck.export())), tag + "_credential_carries_the_debug_key_present_when_it_was_made")
+        ref = refs[0] if cnt == 1 else H(env, [x for r in refs for x in r], hb)
+        env.prove(env.bytes_eq(dc.calculate_hash(), ref), tag + "_credential_rot_hash_equals_image_tools_value")
+        env.prove(len(sp.calls) == 1 and env.bytes_eq(sp.calls[0], b[:len(b) - 2 * n]), tag + "_credential_signed_over_its_own_bytes")
+    env.prove(env.bytes_eq(exports[0][0].export(), exports[0][1]), "hist.first_credential_unchanged_by_the_second")
+
+
 def cases(tier):
     q = tier == "quick"
     cs = []
+    for ver, fam in (("2.0", "lpc55s3x"), ("2.1", "mcxn9xx")):
+        for n, used in ((1, 0), (2, 1), (3, 0)) + (() if q else ((4, 3), (4, 0))):
+            cs.append({"id": f"hist/{ver}/n={n}/used={used}", "h": "hist", "ver": ver, "family": fam, "n": n, "used": used, "weight": 2 * n})
     for ver, fam in (("2.0", "lpc55s3x"), ("2.1", "mcxn9xx")):
         for n in (1, 2, 3, 4):
             for used in range(n):
